@@ -107,6 +107,9 @@ func (pe *propertiesEncoder) doEncode(p *properties.Properties, node *CandidateN
 	case MappingNode:
 		return pe.encodeMap(p, node.Content, path)
 	case AliasNode:
+		if node.Alias == nil {
+			return fmt.Errorf("alias *%v has no target node, cannot encode it as properties", node.Value)
+		}
 		return pe.doEncode(p, node.Alias, path, nil)
 	default:
 		return fmt.Errorf("Unsupported node %v", node.Tag)
